@@ -104,6 +104,11 @@ func timingClass(class string) bool {
 	return class == "crash/concurrent-map-access" || class == "crash/data-race"
 }
 
+// selfCertifying: classes whose report carries its own proof (see report).
+func selfCertifying(class string) bool {
+	return timingClass(class) || class == "lifecycle/hang-free-running"
+}
+
 func sameClass(got, want string) bool {
 	return got == want || (got != "" && timingClass(got) && timingClass(want))
 }
@@ -341,6 +346,27 @@ func (c *checker) report(ph phase, raw json.RawMessage, class string, seed uint6
 				break
 			}
 		}
+	}
+	if !first && selfCertifying(class) {
+		// a race report, the runtime's abort on unsynchronised map access or the goroutine
+		// dump of a free-running call that never returned are evidence in themselves; that the
+		// timing does not line up again in a few dozen repetitions does not take it back
+		doc, _ := decodeGeneric(raw)
+		doc["replay_phase"], doc["property"], doc["flaky"] = ph.Name, c.prop, true
+		note := "timing-dependent: did not occur again in the repetitions of its workload; the replay repeats the workload (not minimised) and may need many attempts"
+		doc["note"] = note
+		path, err := writeReplay(c.prop, encodeGeneric(doc), fmt.Sprintf("%s-seed%d", sanitize(class), seed))
+		if err != nil {
+			die2("cannot write replay: %v", err)
+		}
+		msg := ""
+		if v, ok := doc["violation"].(map[string]interface{}); ok {
+			msg, _ = v["message"].(string)
+		}
+		fmt.Printf("violation class: %s\n%s\n%s\n", class, msg, note)
+		fmt.Printf("VIOLATION property=%s replay=%s\n", c.prop, path)
+		c.violation, c.violClass = path, class
+		return
 	}
 	if !first {
 		die2("violation %s at seed %d did not reproduce from its replay object in a fresh process; refusing to report (replay machinery trouble)", class, seed)
